@@ -23,6 +23,9 @@
 //	            debug.Stack/ReadBuildInfo — unless the text goes only to a logger (errtext.go)
 //	error-text-in-consensus-data err.Error() / `%s` `%v` of an error used as a VALUE (not to build another error, not logged, not
 //	            panicked): acknowledgement messages, event attributes, stored fields (errtext.go)
+//	shared-constant-mutation in-place write (big.Int mutator, index assignment, copy / append destination, *p = …) through a LOCAL
+//	            ALIAS of process memory: a package-level pointer of the module or of a dependency, the result of a call
+//	            that may hand back its argument or a global, a field of a resident struct (alias.go)
 //	process-state-holder package-level variable of mutable type (map, slice, pointer, interface, chan, func, sync.*, struct holding one):
 //	            a place where process-local state CAN live; every one is listed so that a new one is a finding by itself
 //	process-state write to process-local mutable state (field of a keeper / module / hook / ante struct, package-level
@@ -706,6 +709,22 @@ func main() {
 	rep := Report{Repo: abs, ByKind: map[string]int{}}
 	all := map[string]*Site{}
 	resident := computeResident(pkgs)
+	// index of the module's functions for the one-level return summaries of the alias analysis
+	packages.Visit(pkgs, nil, func(p *packages.Package) {
+		if p.Types == nil || !inModule(p.Types) || p.TypesInfo == nil {
+			return
+		}
+		sc := &collector{fset: p.Fset, info: p.TypesInfo, rel: "", sites: map[string]*Site{}, ps: resident}
+		for _, f := range p.Syntax {
+			for _, d := range f.Decls {
+				if fd, ok := d.(*ast.FuncDecl); ok {
+					if obj, ok2 := p.TypesInfo.Defs[fd.Name].(*types.Func); ok2 {
+						moduleFuncs[obj] = &funcInfo{decl: fd, info: p.TypesInfo, c: sc}
+					}
+				}
+			}
+		}
+	})
 	for _, p := range pkgs {
 		for _, e := range p.Errors {
 			rep.Errors = append(rep.Errors, p.PkgPath+": "+e.Error())
@@ -734,6 +753,7 @@ func main() {
 						c.walkFunc(funcName(x), x)
 						c.procWrites(funcName(x), x.Body)
 						c.errText(funcName(x), x.Body)
+						c.aliasWrites(funcName(x), x.Body)
 					}
 				case *ast.GenDecl:
 					if x.Tok == token.IMPORT {
